@@ -10,7 +10,7 @@
 // count * size_of::<T>() bytes with a wire-controlled 32-bit `count` (tens of GiB: `System` refuses,
 // Rust's allocation-error handler ABORTS the process) yields a readable witness instead of killing the
 // test binary.  Code that also WRITES such a block (BytesMut::resize) would commit the pages: the one
-// field known to do that (DATA_FRAG.sampleSize) is therefore enumerated up to 1 GiB only.
+// field known to do that (DATA_FRAG.sampleSize) is therefore enumerated up to 256 MiB only.
 // Oracle, from the property statement: while the real code processes ONE wire input of n bytes
 //     a. datagram:               largest single request <= 64 KiB + 16 n,  total requested <= 160 KiB + 64 n
 //     b./c. discovery / CDR payload:                    <=  4 KiB + 16 n,                  <=  16 KiB + 64 n
@@ -39,21 +39,26 @@
 //      the second datagram depends on fields of the first), HEARTBEAT, GAP, HEARTBEAT_FRAG, ACKNACK and
 //      NACK_FRAG (the ACKNACK is handed on to a real reliable Writer::handle_ack_nack with the reader
 //      matched, as DPEventLoop does), INFO_TS / INFO_SRC / INFO_DST / INFO_REPLY each followed by DATA and
-//      HEARTBEAT.
+//      HEARTBEAT, SEC_PREFIX + SEC_BODY + SEC_POSTFIX + HEARTBEAT (parsed only with --features security).
 //   b. discovery payloads through the real from_pl_cdr_bytes of SpdpDiscoveredParticipantData,
 //      DiscoveredReaderData (with PID_CONTENT_FILTER_PROPERTY: four strings and the expression-parameter
 //      sequence), DiscoveredWriterData, DiscoveredTopicData; each carries locators, strings, QoS,
 //      PID_PROPERTY_LIST, PID_DATA_TAGS, PID_PARTITION, PID_USER_DATA, PID_TYPE_OBJECT and unknown /
-//      vendor-specific parameters, plus one parameter whose declared length is the rest of the payload.
+//      vendor-specific parameters; plus a leading parameter that claims 65532 / 65535 bytes.
 //   c. plain CDR through the real CDRDeserializerAdapter::from_bytes (what SimpleDataReader::
 //      deserialize_with calls): ParticipantMessageData (octet sequence) and a user type with a String, a
 //      Vec<u8>, a Vec<String> and a Vec<u64>.
 //   NOT enumerated in the default-feature build: the security-only readers (qos::policy::Property /
 //   DataTag, DataHolder tokens); xc_alloc_security_* below run only with --features security.
-// FINDING CANDIDATES on the unchanged tree (tests #[ignore]d, see the comments at those tests):
-//   work.alloc.datafrag.data_size          DATA_FRAG.sampleSize is allocated and zeroed up front
-//   work.alloc.info_reply.unicast.count    INFO_REPLY locator-list count pre-sizes a Vec<Locator>
-// Both fields are enumerated in the passing tests only with the values that stay inside the oracle.
+// FINDINGS on the unchanged tree, each isolated in a test of its own (see the comments there):
+//   xc_alloc_datafrag_data_size         work.alloc.datafrag.data_size: DATA_FRAG.sampleSize is allocated and
+//                                       zero-filled up front (OPEN known finding)
+//   xc_alloc_info_reply_locator_count   work.alloc.info_reply.{unicast,multicast}.count: the INFO_REPLY
+//                                       locator-list count pre-sized a Vec<Locator> (32-byte datagram ->
+//                                       request of 128 GiB -> SIGABRT); REPAIRED in /repo 5213fd5, the test
+//                                       now enumerates every value and every mutation of the submessage
+// In xc_alloc_datagrams_named_and_blind DATA_FRAG.sampleSize is enumerated up to 65536 only (and, on a tree
+// without the INFO_REPLY repair: INFO_REPLY_REPAIRED = false, the bytes of that submessage are not mutated).
 #[cfg(test)]
 mod verif_xc_alloc_bound {
   use std::{
@@ -244,11 +249,12 @@ mod verif_xc_alloc_bound {
     max_largest: (usize, usize), // (largest single request, input length) of the input with the largest request
     max_total: (usize, usize),
     witnesses: Vec<String>,
+    headline: (usize, String), // the witness with the largest single request: first line of the failure message
   }
 
   impl Stats {
     fn new(allow: Allowance) -> Stats {
-      Stats { allow, cases: 0, deep: 0, worst_single: 0, worst_total: 0, worst_single_at: String::new(), worst_total_at: String::new(), max_largest: (0, 0), max_total: (0, 0), witnesses: vec![] }
+      Stats { allow, cases: 0, deep: 0, worst_single: 0, worst_total: 0, worst_single_at: String::new(), worst_total_at: String::new(), max_largest: (0, 0), max_total: (0, 0), witnesses: vec![], headline: (0, String::new()) }
     }
     fn judge(&mut self, label: &str, encoding: &str, value: u32, input_len: usize, u: Usage) {
       self.cases += 1;
@@ -275,10 +281,8 @@ mod verif_xc_alloc_bound {
             format!("{} bytes requested in total while processing {} received bytes; allowed {} + {}*n = {}", u.total, input_len, total_base, TOTAL_PER_BYTE, total_base + TOTAL_PER_BYTE * input_len)
           }
         );
-        if self.witnesses.len() < 12 {
-          println!("{w}");
-          self.witnesses.push(w);
-        }
+        if u.largest.max(1) > self.headline.0 { self.headline = (u.largest.max(1), w.clone()); }
+        if self.witnesses.len() < 12 { self.witnesses.push(w); }
       }
     }
     fn finish(&self, what: &str) {
@@ -287,7 +291,12 @@ mod verif_xc_alloc_bound {
         self.cases, self.deep, self.worst_single, self.worst_single_at, self.worst_total, self.worst_total_at,
         self.max_largest.0, self.max_largest.1, self.max_total.0, self.max_total.1
       );
-      assert!(self.witnesses.is_empty(), "{}\n({} more inputs of this test may violate the bound; the first {} are printed above)", self.witnesses[0], self.witnesses.len() - 1, self.witnesses.len());
+      if !self.witnesses.is_empty() {
+        // the input with the largest request first, then the first violating inputs in enumeration order
+        println!("{}", self.headline.1);
+        for w in &self.witnesses { if *w != self.headline.1 { println!("{w}"); } }
+        panic!("{}\n(the input with the largest request; {} more violating inputs are printed above)", self.headline.1, self.witnesses.len());
+      }
     }
   }
 
@@ -755,6 +764,21 @@ mod verif_xc_alloc_bound {
     })
   }
   fn e_info_reply(be: bool, p: &[u8; 12]) -> Vec<Wire> { one(be, p, info_reply_image) }
+  // DDS Security submessages (parsed only with --features security; unknown kinds otherwise):
+  // SEC_PREFIX (CryptoHeader: transformation kind, key id, session id, IV suffix), SEC_BODY (CryptoContent:
+  // octet sequence whose length is always big-endian), SEC_POSTFIX (CryptoFooter), then a HEARTBEAT
+  fn e_sec(be: bool, p: &[u8; 12]) -> Vec<Wire> {
+    one(be, p, |w| {
+      w.sub("sec_prefix", 0x31, 0).raw(&[0, 0, 0, 2]).raw(&[1, 2, 3, 4]).raw(&[0, 0, 0, 1]).raw(&[8; 8]).end();
+      w.sub("sec_body", 0x30, 0);
+      w.fields.push(Field { name: "sec_body.crypto_content.length".to_string(), off: w.b.len(), width: 4 });
+      w.raw(&8u32.to_be_bytes()).raw(&[0xEE; 8]).end();
+      w.sub("sec_postfix", 0x32, 0).raw(&[0xAA; 16]);
+      w.fields.push(Field { name: "sec_postfix.receiver_specific_macs.count".to_string(), off: w.b.len(), width: 4 });
+      w.raw(&0u32.to_be_bytes()).end();
+      heartbeat(w, "heartbeat", 1, 2, 1);
+    })
+  }
 
   // name, number of submessages of the last datagram of the unmodified input, builder
   fn entries() -> Vec<(&'static str, usize, Build)> {
@@ -775,6 +799,7 @@ mod verif_xc_alloc_bound {
       ("info_src", 3, e_info_src as Build),
       ("info_dst", 3, e_info_dst as Build),
       ("info_reply", 3, e_info_reply as Build),
+      ("sec", if cfg!(feature = "security") { 4 } else { 1 }, e_sec as Build),
     ]
   }
 
@@ -799,8 +824,8 @@ mod verif_xc_alloc_bound {
     if be { u32::from_be_bytes(x) } else { u32::from_le_bytes(x) }
   }
 
-  // The two finding candidates of the unchanged tree are kept out of the passing test and enumerated in
-  // the #[ignore]d tests below:
+  // The two findings of the unchanged tree are kept out of the general test and have tests of their own
+  // (xc_alloc_datafrag_data_size, xc_alloc_info_reply_locator_count):
   // (1) DATA_FRAG.sampleSize: would the receiver, reading the mutated image with the byte order its
   //     (possibly mutated) flags octet declares, see a sampleSize > 65536?
   fn datafrag_size_candidate(w: &Wire, mutated: &[u8]) -> bool {
@@ -845,7 +870,7 @@ mod verif_xc_alloc_bound {
         for k in 0..base.len() {
           for (field, off, value, vbe, bytes) in mutations(&base[k], true) {
             match scope {
-              Scope::Passing => if datafrag_size_candidate(&base[k], &bytes) || in_info_reply(entry, &base[k], off) { continue; },
+              Scope::Passing => if datafrag_size_candidate(&base[k], &bytes) || (!INFO_REPLY_REPAIRED && in_info_reply(entry, &base[k], off)) { continue; },
               Scope::InfoReplyOnly => if !in_info_reply(entry, &base[k], off) { continue; },
             }
             let prefix = rig.fresh_prefix();
@@ -856,7 +881,8 @@ mod verif_xc_alloc_bound {
             if entry == "info_src" && m[32..44] == base[k].b[32..44] { m[32..44].copy_from_slice(&dgrams[k][32..44]); }
             dgrams[k] = m;
             let (us, count) = rig.process(prefix, &dgrams);
-            if count == n_sub { stats.deep += 1; }
+            // (submessage_count is left over from the previous datagram when the parser rejects this one)
+            if count == n_sub && Message::read_from_buffer(&Bytes::copy_from_slice(dgrams.last().unwrap())).is_ok() { stats.deep += 1; }
             for (u, d) in us.iter().zip(&dgrams) {
               stats.judge(&label(entry, &field), &enc_name(be, vbe), value, d.len(), *u);
             }
@@ -891,7 +917,7 @@ mod verif_xc_alloc_bound {
     // and the oracle rejects it
     let mut s = Stats::new(DATAGRAM);
     s.judge("work.alloc.selftest", "-", 0, 100, u);
-    assert!(s.witnesses.len() == 1 && s.witnesses[0].starts_with("XC-WITNESS label=work.alloc.selftest "));
+    assert!(s.witnesses.len() == 1 && s.headline.1.starts_with("XC-WITNESS label=work.alloc.selftest "));
   }
 
   #[test]
@@ -902,44 +928,61 @@ mod verif_xc_alloc_bound {
     stats.finish("datagrams");
   }
 
-  // FINDING CANDIDATE (unchanged tree): DATA_FRAG.sampleSize (`data_size`) is taken from the wire and
-  // AssemblyBuffer::new does BytesMut::with_capacity(data_size) + resize(data_size, 0) (and a bitmap of
-  // data_size / fragment_size bits) when the first fragment of a sample arrives.  Observed here: a
-  // 68-byte datagram with data_size = 1_000_000 -> one request of 1_000_000 bytes; 256 MiB -> 268_435_456;
-  // 1 GiB -> 1_073_741_824 (and the block is zero-filled, i.e. really committed); nothing but the 32-bit
-  // field limits it (0xFFFF_FFFF = 4 GiB per datagram, kept until the fragment GC).  Not enumerated
-  // beyond 1 GiB so that the test does not exhaust the machine.
+  // FINDING (unchanged tree, OPEN): DATA_FRAG.sampleSize (`data_size`) is taken from the wire and
+  // AssemblyBuffer::new does BytesMut::with_capacity(data_size) + resize(data_size, 0) (plus a bitmap of
+  // data_size / fragment_size bits) when the first fragment of a sample arrives.  A 64-byte datagram with
+  // data_size = 1_000_000 -> one request of 1_000_000 bytes; 256 MiB -> 268_435_456 (total 272_631_944);
+  // 1 GiB -> 1_073_741_824; the block is zero-filled, i.e. really committed, and kept until the fragment
+  // GC; nothing but the 32-bit field limits it (4 GiB per datagram).  One DATA_FRAG with 256 MiB here.
   #[test]
-  #[ignore]
-  fn xc_alloc_finding_datafrag_data_size() {
+  fn xc_alloc_datafrag_data_size() {
     let mut stats = Stats::new(DATAGRAM);
     let mut rig = Rig::new();
-    for be in [false, true] {
-      for value in [65_537u32, 1_000_000, 1 << 28, 1 << 30] {
-        let prefix = rig.fresh_prefix();
-        let mut w = entries().into_iter().find(|e| e.0 == "datafrag").unwrap().2(be, &prefix).remove(0);
-        let f = w.fields.iter().find(|f| f.name == "datafrag.data_size").unwrap().clone();
-        let e = if be { value.to_be_bytes() } else { value.to_le_bytes() };
-        w.b[f.off..f.off + 4].copy_from_slice(&e);
-        let (us, _) = rig.process(prefix, &[w.b.clone()]);
-        stats.judge("work.alloc.datafrag.data_size", &enc_name(be, be), value, w.b.len(), us[0]);
-        rig.new_reader(); // give the buffer back
-      }
-    }
+    let (be, value) = (false, 1u32 << 28);
+    let prefix = rig.fresh_prefix();
+    let mut w = e_datafrag(be, &prefix).remove(0);
+    let f = w.fields.iter().find(|f| f.name == "datafrag.data_size").unwrap().clone();
+    w.b[f.off..f.off + 4].copy_from_slice(&value.to_le_bytes());
+    let (us, count) = rig.process(prefix, &[w.b.clone()]);
+    assert!(count == 1, "test setup: the DATA_FRAG was not interpreted");
+    stats.judge("work.alloc.datafrag.data_size", &enc_name(be, be), value, w.b.len(), us[0]);
+    rig.new_reader(); // give the buffer back
     stats.finish("DATA_FRAG data_size");
   }
 
-  // FINDING CANDIDATE (unchanged tree): INFO_REPLY's locator lists are read by the derived speedy reader
-  // of Vec<Locator>; Locator has a hand-written Readable without minimum_bytes_needed(), so speedy's
-  // read_vec does Vec::with_capacity(count) without comparing count with the bytes that are left:
-  // count * 32 bytes are requested before the first locator is read.  See the witness printed by this
-  // test (the 0xFFFF_FFFF case asks for ~128 GiB in one request; with the System allocator that is an
-  // allocation failure = process abort).
+  // FINDING (repaired in /repo 5213fd5: Locator::minimum_bytes_needed): INFO_REPLY's locator lists are read by the derived speedy reader of
+  // Vec<Locator>; Locator has a hand-written Readable without minimum_bytes_needed() (default 0), so speedy's
+  // read_vec does Vec::with_capacity(count) without comparing count with the bytes that are left: count * 32
+  // bytes are requested before the first locator is read.  A 32-byte datagram (RTPS header + INFO_REPLY
+  // with count 0xFFFF_FFFF) asks for 137_438_953_440 bytes: with the System allocator that is an allocation
+  // failure = SIGABRT of the process.  On a tree without the repair (INFO_REPLY_REPAIRED = false) only counts
+  // whose request is harmless are enumerated (65535 -> 2 MB ... 16_000_000 -> 512 MB, never written to);
+  // with it every value incl. 0xFFFF_FFFF and every mutation of the submessage's bytes.
+  const INFO_REPLY_REPAIRED: bool = true;
+
   #[test]
-  #[ignore]
-  fn xc_alloc_finding_info_reply_locator_count() {
+  fn xc_alloc_info_reply_locator_count() {
     let mut stats = Stats::new(DATAGRAM);
-    run_datagram_entries(Scope::InfoReplyOnly, &mut stats);
+    if INFO_REPLY_REPAIRED {
+      run_datagram_entries(Scope::InfoReplyOnly, &mut stats);
+      assert!(stats.cases > 1_000, "vacuity guard: {} inputs", stats.cases);
+    } else {
+      let mut rig = Rig::new();
+      for be in [false, true] {
+        for field in ["info_reply.unicast.count", "info_reply.multicast.count"] {
+          for value in [65_535u32, 65_536, 1_000_000, 16_000_000] {
+            let prefix = rig.fresh_prefix();
+            let mut w = e_info_reply(be, &prefix).remove(0);
+            let f = w.fields.iter().find(|f| f.name == field).unwrap().clone();
+            let e = if be { value.to_be_bytes() } else { value.to_le_bytes() };
+            w.b[f.off..f.off + 4].copy_from_slice(&e);
+            let (us, _) = rig.process(prefix, &[w.b.clone()]);
+            stats.judge(&label("info_reply", field), &enc_name(be, be), value, w.b.len(), us[0]);
+          }
+        }
+      }
+      assert!(stats.cases == 16);
+    }
     stats.finish("INFO_REPLY locator count");
   }
 
